@@ -2741,7 +2741,12 @@ class Network(Cached):
             the number of all nodes is returned.  (Default: True)
         :rtype: int >= 0
         """
-        return self.graph.diameter(directed=directed, unconn=only_connected)
+        diameter = self.graph.diameter(directed=directed,
+                                       unconn=only_connected)
+        #  recent igraph versions report inf for unconnected graphs
+        if not only_connected and np.isinf(diameter):
+            return self.N
+        return diameter
 
     #
     #  Link valued measures
